@@ -1,5 +1,6 @@
 import EinoV.Basic.JsonUtil
 import EinoV.Model.C10
+import EinoV.Model.C10Runs
 import EinoV.Expected.C10
 
 namespace EinoV.Oracle.C10
@@ -24,7 +25,7 @@ def parseOpt (j : Json) : JE Opt := do
   pure ⟨← parseHds j "hs", ← (J.arrD j "paths").mapM parsePath⟩
 
 def parseEndKind : String → JE EndKind
-  | "ok" => pure .ok | "okStream" => pure .okStream | "err" => pure .err
+  | "ok" => pure .ok | "okStream" => pure .okStream | "err" => pure .err | "intr" => pure .intr
   | s => throw s!"bad end kind {s}"
 
 def parseUKind (j : Json) : JE UKind := do
@@ -42,31 +43,82 @@ def parseUKind (j : Json) : JE UKind := do
       pure (.self own)
 
 def parseUnitSpec (j : Json) : JE UnitSpec := do
-  pure ⟨← (J.arrD j "path").mapM J.asStr, J.boolD j "tool" false, ← J.str j "info", ← parseUKind (← J.field j "k")⟩
+  pure ⟨← (J.arrD j "path").mapM J.asStr, J.boolD j "tool" false, ← J.str j "info", ← parseUKind (← J.field j "k"),
+        J.boolD j "cb" false⟩
 
 def evJson (e : LogEv) : Json := J.mkNats [e.h.id, e.t.toNat]
 
 def hdIds (l : List Hd) : Json := J.mkNats (l.map (·.id))
 
-def handleCompose (c : Json) : JE Json := do
-  let userInit : Option (List Hd × Nat) ← match c.getObjVal? "userInit" with
-    | .ok (.obj o) => do
-      let u : Json := .obj o
-      pure (some (← parseHds u "hs", J.natD u "spare" 0))
-    | _ => pure none
-  let cs : Case := { globals := ← parseHds c "globals", userInit := userInit,
-                     opts := ← (J.arrD c "opts").mapM parseOpt,
-                     units := ← (J.arrD c "units").mapM parseUnitSpec }
-  let P := progOf Expected.C10.runHasDeferredBlock Expected.C10.deferStartsIfMissing cs
+def parseUserInit (c : Json) : JE (Option (List Hd × Nat)) :=
+  match c.getObjVal? "userInit" with
+  | .ok (.obj o) => do
+    let u : Json := .obj o
+    pure (some (← parseHds u "hs", J.natD u "spare" 0))
+  | _ => pure none
+
+/-- run the unit machine on the units of one compose run (canonical sequential schedule);
+    per unit: the run info its callbacks carry, the delivered (handler, timing) sequence, its handler list -/
+def unitsJson (cs : Case) : List Json :=
+  let P := progOf Expected.C10.cfacts cs
   let st := run Expected.C10.facts P (seqSchedule P)
-  let skip := if userInit.isSome then 1 else 0
-  let units := (List.range P.units.length).drop skip |>.map fun i =>
+  let skip := if cs.userInit.isSome then 1 else 0
+  (List.range P.units.length).drop skip |>.map fun i =>
+    let u := cs.units[i - skip]?
     Json.mkObj [("info", Json.str (unitInfo P i)),
                 ("ev", J.mkArr ((projLog st.log i).map evJson)),
                 ("handlers", match handlersFor st i with | some l => hdIds l | none => Json.null),
-                ("parent", match (P.units[i]?).bind (·.parent) with | some p => (p : Json) | none => Json.null)]
+                ("parent", match (P.units[i]?).bind (·.parent) with | some p => (p : Json) | none => Json.null),
+                ("parentInfo", match (P.units[i]?).bind (·.parent) with | some p => Json.str (unitInfo P p) | none => Json.null),
+                ("tool", Json.bool ((u.map (·.toolCall)).getD false)),
+                ("cb", Json.bool ((u.map (·.cbEnabled)).getD false)),
+                ("intr", Json.bool ((u.map (·.kind.isInterrupt)).getD false))]
+
+def handleCompose (c : Json) : JE Json := do
+  let cs : Case := { globals := ← parseHds c "globals", userInit := ← parseUserInit c,
+                     opts := ← (J.arrD c "opts").mapM parseOpt,
+                     units := ← (J.arrD c "units").mapM parseUnitSpec }
   let cbs := buildCbs cs.opts
-  pure <| Json.mkObj [("units", J.mkArr units), ("cbsLen", (cbs.2.len : Json)), ("cbsCap", (cbs.2.cap : Json))]
+  pure <| Json.mkObj [("units", J.mkArr (unitsJson cs)), ("cbsLen", (cbs.2.len : Json)), ("cbsCap", (cbs.2.cap : Json))]
+
+/-! ### runs: a shape with interrupting units, first run and resumed run (Model/C10Runs.lean) -/
+
+def parseLK : String → JE (LK × Bool)
+  | "i" => pure (.i, false) | "s" => pure (.s, false) | "c" => pure (.c, false) | "t" => pure (.t, false)
+  | "self" => pure (.i, true)
+  | s => throw s!"bad lambda kind {s}"
+
+def parseToolD (j : Json) : JE ToolD := do
+  let (hi, hs) ← match (← J.str j "tk") with
+    | "inv" => pure (true, false) | "str" => pure (false, true) | "both" => pure (true, true)
+    | s => throw s!"bad tool kind {s}"
+  pure ⟨← J.str j "key", hi, hs, J.boolD j "cb" false, J.natD j "intr" 0 > 0⟩
+
+def parseInnerD (j : Json) : JE InnerD := do
+  let key ← J.str j "key"
+  match (← J.str j "lk") with
+  | "tools" => pure (.tools key (← (J.arrD j "tools").mapM parseToolD))
+  | lk => do
+    let (k, self) ← parseLK lk
+    pure (.lam key k self (J.natD j "intr" 0 > 0))
+
+def parseTopD (j : Json) : JE TopD := do
+  match (← J.str j "lk") with
+  | "graph" => pure (.sub (← J.str j "key") (← (J.arrD j "inner").mapM parseInnerD))
+  | _ => pure (.inner (← parseInnerD j))
+
+def handleRuns (c : Json) : JE Json := do
+  let sh : Shape := ⟨(← J.str c "paradigm") != "invoke", ← (J.arrD c "nodes").mapM parseTopD⟩
+  let globals ← parseHds c "globals"
+  let userInit ← parseUserInit c
+  let opts ← (J.arrD c "opts").mapM parseOpt
+  let runs := sh.runs.map fun first =>
+    let cs : Case := { globals := globals, userInit := userInit, opts := opts, units := runUnits sh first }
+    Json.mkObj [("first", Json.bool first),
+                ("outcome", Json.str (if first && sh.interrupts then "interrupt" else "ok")),
+                ("units", J.mkArr (unitsJson cs))]
+  let cbs := buildCbs opts
+  pure <| Json.mkObj [("runs", J.mkArr runs), ("cbsLen", (cbs.2.len : Json)), ("cbsCap", (cbs.2.cap : Json))]
 
 def parseSlice (j : Json) : JE Slice := do
   match (← J.asArr j) with
@@ -124,6 +176,7 @@ def handle (c : Json) : JE Json := do
   match J.strD c "kind" "compose" with
   | "api" => handleApi c
   | "copies" => handleCopies c
+  | "runs" => handleRuns c
   | _ => handleCompose c
 
 end EinoV.Oracle.C10
